@@ -271,7 +271,7 @@ def generate(rng, tier, index):
                     ex.apply(["U", side] + list(op))
             ex.apply(["X", "quiet_restart", weighted(rng, VARIANTS)])
             return
-        for wh in (0, 1, 2):          # as in production, every service has run at least once before anything else happens
+        for wh in (2, 0, 1):          # (sync service first: it validates the roots the event services wait for) as in production, every service has run at least once before anything else happens
             ex.apply(["S", wh])
         n = rng.randint(1, 7)
         nrest = rng.randint(1, 2)
